@@ -78,6 +78,14 @@ def gen_cases(tier, seed):
                "scale": scale, "fam": fam}
 
 
+    # sparse data with one long, almost empty mode (fewer stored entries than half its length, some sharing an index of that mode)
+    for i, shp in enumerate([[8, 2, 2], [2, 10, 2], [3, 2, 12], [9, 3], [2, 2, 2, 9]] * (1 if tier == "quick" else 6)):
+        N = len(shp)
+        yield {"w": "als", "rep": "sptensor", "shape": shp, "Rt": 2, "R": 1 + (i % 2), "dimorder": [int(x) for x in rng.permutation(N)], "optdims": None,
+               "init": ["given", "random"][i % 2], "store": None, "fixsigns": bool(i % 2), "printitn": int(rng.choice([0, 1])), "stoptol": 0.0,
+               "kmax": 4, "gseed": int(rng.integers(0, 2 ** 31)), "cseed": int(seed) * 49979687 + next(cs), "scale": 1.0, "fam": "long-sparse"}
+
+
 def _quiet(f, *a, **k):
     with contextlib.redirect_stdout(io.StringIO()):
         return f(*a, **k)
@@ -132,6 +140,23 @@ def run_case(case, ctx):
     elif rep == "tensor":
         D = _recording(ttb.tensor)(X.copy())
         Xd = X
+    elif rep == "sptensor" and fam == "long-sparse":
+        L = int(np.argmax(shape))
+        k = max(2, shape[L] // 2)
+        Xs = np.zeros(shape)
+        pos = [int(x) for x in rng.choice(shape[L], size=k - 1, replace=False)]
+        pos.append(pos[0])
+        for j in pos:
+            for _t in range(20):
+                idx = [int(rng.integers(0, s_)) for s_ in shape]
+                idx[L] = j
+                if Xs[tuple(idx)] == 0:
+                    Xs[tuple(idx)] = float(rng.uniform(0.5, 3.0)) * float(rng.choice([-1.0, 1.0]))
+                    break
+        subs = np.array(np.nonzero(Xs)).T
+        subs = subs[rng.permutation(subs.shape[0])]
+        D = _recording(ttb.sptensor)(subs, Xs[tuple(subs.T)][:, None], shape)
+        Xd = Xs
     elif rep == "sptensor":
         Xs = X * (rng.random(shape) < (0.6 if fam == "lowrank" else 0.9))
         if fam == "near-diagonal":
@@ -172,7 +197,7 @@ def run_case(case, ctx):
         M0 = ttb.ktensor([np.eye(s, R) + 0.01 * rng.standard_normal((s, R)) for s in shape])
     ctx.feat(rep=rep, init=case["init"], N=N, R=R, all_modes=(optd is None), fixsigns=case["fixsigns"], printitn=case["printitn"], stoptol=case["stoptol"],
              fam=fam, scale=("1" if scale == 1.0 else "tiny" if scale < 1e-6 else "small" if scale < 1 else "large"), store=str(store))
-    if store and min(np.linalg.matrix_rank(np.moveaxis(Xd, n_, 0).reshape(shape[n_], -1)) for n_ in range(N)) < R:
+    if (store or fam == "long-sparse") and min(np.linalg.matrix_rank(np.moveaxis(Xd, n_, 0).reshape(shape[n_], -1)) for n_ in range(N)) < R:
         ctx.tag("outside-domain(unfolding rank < requested rank)")
         return
     normX2 = float(np.sum(Xd ** 2))
